@@ -444,11 +444,12 @@ impl<'a> Dec<'a> {
     /// header of a record / tuple / enum with stored version ≥ 1:
     /// returns chunk windows (absolute), made-optional positions, removed names
     #[allow(clippy::type_complexity)]
-    fn header(&mut self, ver: usize) -> Result<(Vec<(usize, usize)>, Vec<(usize, usize)>, Vec<String>), DecErr> {
+    fn header(&mut self, ver: usize) -> Result<(Vec<(usize, usize)>, Vec<(usize, usize)>, Vec<(String, usize)>), DecErr> {
         let mut sizes: Vec<usize> = Vec::with_capacity(ver + 1);
         let mut made_optional: Vec<(usize, usize)> = Vec::new();
-        let mut removed: Vec<String> = Vec::new();
-        for _ in 0..=ver {
+        // removed names with the index of the step that removed them
+        let mut removed: Vec<(String, usize)> = Vec::new();
+        for step in 0..=ver {
             let off = self.pos;
             let code = self.vi()?;
             if code > 0 {
@@ -471,7 +472,7 @@ impl<'a> Dec<'a> {
             } else if code == -2 {
                 self.note(off, AnnotKind::StepCode, -2);
                 let name = self.dedup_string()?;
-                removed.push(name);
+                removed.push((name, step));
                 sizes.push(0);
             } else {
                 return err(ErrKind::NegativeLength, format!("chunk size {code}"));
@@ -570,7 +571,8 @@ impl<'a> Dec<'a> {
                 out.push(f.default.clone().expect("transient default"));
                 continue;
             }
-            let is_removed = removed.iter().any(|n| n == &f.name);
+            // a removal that precedes the step which added this field concerns an earlier field of the same name
+            let is_removed = removed.iter().any(|(n, at)| n == &f.name && *at > schema.generation(&f.name));
             if !f.opt_by_name {
                 if is_removed {
                     return err(ErrKind::FieldRemoved(f.name.clone()), "removed in stored version");
